@@ -533,6 +533,8 @@ class VecLen:
                     st.vec["_%d" % dl] = (max(iv[0] - k, 0), iv[1] - k if iv[1] < INF else INF, tail)
                     if tail is None:
                         st.dirty.add("_%d" % dl)     # its elements are not indices 0.. of the original
+                        if key0 not in st.dirty:
+                            st.sym[dl] = ("tailoff", k)      # .. but original elements k, k+1, .. in order
                 self._forget_syms(st, key0)
             else:
                 self.obligations.append({"bb": bb, "kind": "split_off", "vec": key0, "index": "?", "lo": iv[0], "hi": iv[1],
@@ -599,6 +601,22 @@ class VecLen:
             return
         if name == VEC_POP and key0:
             iv = self._iv(st, key0)
+            off = st.sym.get(int(key0[1:])) if key0[1:].isdigit() else None
+            if iv[2] is None and off and off[0] == "tailoff":
+                # the tail `v.split_off(k)` of a vector of unknown length: popping from a tail of at most one element yields
+                # original element k (if anything)
+                last = off[1] if iv[1] == 1 else None
+                orig = None
+                if dl is not None:
+                    if iv[0] >= 1:
+                        st.sym[dl] = ("variant", "Some")
+                    elif iv[1] == 0:
+                        st.sym[dl] = ("variant", "None")
+                self.site_elem[bb] = ("elem", key0, last)
+                self.site_state[bb] = (key0, iv)
+                st.vec[key0] = (max(iv[0] - 1, 0), max(iv[1] - 1, 0) if iv[1] < INF else INF, None)
+                self._forget_syms(st, key0)
+                return
             orig = iv[2][:-1] if iv[2] else None
             last = iv[2][-1] if iv[2] else None
             self.site_elem[bb] = ("elem", key0, last)
